@@ -1,11 +1,87 @@
 import PymtlVerif.Driver.Sexp
+import PymtlVerif.Model.SConn
 /-!
 Handler `sconn`: executable face of `Model/SConn.lean` (hosting and orientation of structural connections:
-`gen_connections` + `StructuralRTLIRGenL1Pass._gen_metadata`). Stub.
+`gen_connections` + `StructuralRTLIRGenL1Pass._gen_metadata`).
+
+`sconn emit (comps p0 p1 …) (sigs h0 h1 …) (stmts (c a b) …) (nets (w m…) …) (order (u v1 v2 …) …)`
+
+* `comps`: parent of every component, index = component id, id 0 = Python's `None` (`p0 = 0`), id 1 = top;
+* `sigs`: host component of every signal, index = signal id;
+* `stmts`: the connect statements `(component that executed it, o1, o2)`, the statements of one component in source order;
+* `nets`: `get_all_value_nets()` as `(writer member …)`;
+* `order`: the order in which `adjs[u]` is iterated, for every `u` that has neighbours (a missing `u` gets the order of the
+  statements).
+
+Reply (one line):
+`valid <0|1> nodup <0|1> verdict <ok|TypeError|RTLIRConversionError> nets ((w (reached…)) …) tree ((u v) …)
+ filed ((c ((u v) …)) …) emit ((c ok ((u v) …)) | (c err <class>) …) assigns ((c u v) …)`
+— `reached` and `filed` sorted, `tree` in filing order, `emit` / `assigns` in emission order; components `1 … n-1`.
+A request with ids out of range is `bad-op`.
 -/
 namespace PV.Driver.SConn
-open PV
+open PV PV.SConn
 
-def handle (_args : List Sexp) : Option String := none
+def tagged? (tag : String) : Sexp → Option (List Sexp)
+  | .list (.atom t :: rest) => if t == tag then some rest else none
+  | _ => none
+
+def stmt? : Sexp → Option (Comp × Pair)
+  | .list [c, a, b] => do
+    let c ← c.nat?
+    let a ← a.nat?
+    let b ← b.nat?
+    some (c, (a, b))
+  | _ => none
+
+def headed? (x : Sexp) : Option (Nat × List Nat) := do
+  let xs ← x.nats?
+  match xs with
+  | [] => none
+  | w :: ms => some (w, ms)
+
+def pairLt (a b : Pair) : Bool := a.1 < b.1 || (a.1 == b.1 && a.2 < b.2)
+
+def insertP (a : Pair) : List Pair → List Pair
+  | [] => [a]
+  | b :: l => if pairLt b a then b :: insertP a l else a :: b :: l
+
+def sortP (l : List Pair) : List Pair := l.foldr insertP []
+
+def showPair (p : Pair) : String := s!"({p.1} {p.2})"
+def showPairs (l : List Pair) : String := "(" ++ " ".intercalate (l.map showPair) ++ ")"
+def showNats (xs : List Nat) : String := "(" ++ " ".intercalate (xs.map toString) ++ ")"
+def b01 (b : Bool) : String := if b then "1" else "0"
+
+def handle : List Sexp → Option String
+  | [.atom "emit", comps, sigs, stmts, nets, order] => do
+    let par ← (← tagged? "comps" comps).mapM Sexp.nat?
+    let host ← (← tagged? "sigs" sigs).mapM Sexp.nat?
+    let st ← (← tagged? "stmts" stmts).mapM stmt?
+    let ns ← (← tagged? "nets" nets).mapM headed?
+    let ord ← (← tagged? "order" order).mapM headed?
+    let H : Hier := ⟨par, host, st, ns⟩
+    if !H.wf then none
+    else if !(ord.all (fun e => decide (e.1 < host.length) && e.2.all (fun v => decide (v < host.length)))) then none
+    else
+      let nb : Sig → List Sig := fun u =>
+        match ord.find? (fun e => e.1 == u) with
+        | some e => e.2
+        | none => H.nbrs u
+      let comps := (List.range par.length).tail
+      let v := match verdict H nb with
+        | none => "ok"
+        | some e => e.pyClass
+      let netsS := ns.map (fun n => s!"({n.1} {showNats (PV.Nets.sortDedup (n.1 :: (traverse H nb n.1).map (·.2)))})")
+      let filedS := comps.map (fun c => s!"({c} {showPairs (sortP (filed H nb c))})")
+      let emitS := comps.map (fun c =>
+        match emit H nb c with
+        | .ok l => s!"({c} ok {showPairs l})"
+        | .error e => s!"({c} err {e.pyClass})")
+      let asgS := (assigns H nb).map (fun a => s!"({a.1} {a.2.1} {a.2.2})")
+      some (s!"valid {b01 (validOrderB H nb)} nodup {b01 (stmtsNodupB H)} verdict {v} " ++
+            s!"nets ({" ".intercalate netsS}) tree {showPairs (treeEdges H nb)} " ++
+            s!"filed ({" ".intercalate filedS}) emit ({" ".intercalate emitS}) assigns ({" ".intercalate asgS})")
+  | _ => none
 
 end PV.Driver.SConn
